@@ -141,7 +141,7 @@ pub fn decode_reuse(data: &[u8]) -> SeqCase {
     while i < body.len() && ops.len() < 6 {
         match body[i] % 4 {
             0 => ops.push(Op::Generate),
-            1 => ops.push(Op::Reset),
+            1 => ops.push(if body.get(i + 1).map_or(false, |b| b & 1 == 1) { Op::TakeOutput } else { Op::Reset }),
             _ => {
                 let n = body.get(i + 1).copied().unwrap_or(0) as usize;
                 let chunk: Vec<u8> = body.iter().skip(i + 2).take(n).copied().collect();
